@@ -259,6 +259,20 @@ pub open spec fn op_effect<Sz, N, Sy, C, B>(o: St<Sz, N, Sy, C, B>, n: St<Sz, N,
     &&& n == (St { cells: n.cells, data_len: n.data_len, regs: n.regs, host: n.host, ..o })
 }
 
+/// C06: a call - `pops` operands removed, one input value pushed, one frame pushed that records the
+/// operand stack below the operands (what end_expression restores); nothing is left for the caller yet
+pub open spec fn call_effect<Sz, N, Sy, C, B>(o: St<Sz, N, Sy, C, B>, n: St<Sz, N, Sy, C, B>, pops: nat) -> bool {
+    &&& o.regs.len() >= pops
+    &&& grows(o, n)
+    &&& o.regs.take(o.regs.len() - pops).is_prefix_of(n.regs)
+    &&& n.values.len() == o.values.len() + 1
+    &&& n.values.drop_last() =~= o.values
+    &&& n.frames.len() == o.frames.len() + 1
+    &&& n.frames.drop_last() =~= o.frames
+    &&& n.frames.last().saved_regs =~= o.regs.take(o.regs.len() - pops)
+    &&& n == (St { cells: n.cells, data_len: n.data_len, regs: n.regs, values: n.values, frames: n.frames, ..o })
+}
+
 /// the cell on top of the operand stack
 pub open spec fn top<Sz, N, Sy, C, B>(n: St<Sz, N, Sy, C, B>) -> Cell<Sz, N, Sy, C, B> {
     n.cells[n.regs.last()]
